@@ -21,6 +21,7 @@ Debfile Classes
 # You should have received a copy of the GNU General Public License
 # along with this program.  If not, see <http://www.gnu.org/licenses/>.
 
+import copy
 import gzip
 import io
 import tarfile
@@ -358,11 +359,14 @@ class DebFile(ArFile):
                 "too many parts in given .deb"
                 " (was looking for only one '%s')" % INFO_PART)
 
+        # Each part reads through a member object of its own: the ones that
+        # getmember() and friends hand out have a single cursor, which a
+        # caller reading them would move under the part's tar reader.
         self.__parts = {}   # type: Dict[str, DebPart]
-        self.__parts[CTRL_PART] = DebControl(self.getmember(
-            compressed_part_name(CTRL_PART)))
-        self.__parts[DATA_PART] = DebData(self.getmember(
-            compressed_part_name(DATA_PART)))
+        self.__parts[CTRL_PART] = DebControl(copy.copy(self.getmember(
+            compressed_part_name(CTRL_PART))))
+        self.__parts[DATA_PART] = DebData(copy.copy(self.getmember(
+            compressed_part_name(DATA_PART))))
         self.__pkgname = None   # updated lazily by __updatePkgName
 
         f = self.getmember(INFO_PART)
